@@ -37,7 +37,7 @@ pub struct Case {
     ops: Vec<Op>,
 }
 
-fn gen_case(ch: &mut Choices) -> Case {
+pub fn gen_case(ch: &mut Choices) -> Case {
     let peers = 1 + ch.below(4);
     let n = 2 + ch.below(40);
     let mut next_block = ch.range(0, 3);
@@ -116,7 +116,7 @@ struct Shared {
     accept_cancelled: BTreeSet<usize>,
 }
 
-fn check(case: &Case, st: &mut Stats) -> Result<(), String> {
+pub fn check(case: &Case, st: &mut Stats) -> Result<(), String> {
     det::run(|| async {
         let life = det::Life::new();
         let q = Arc::new(FetchQueue::default());
